@@ -1,8 +1,33 @@
 """C01 - generated parsers implement PEG semantics for the core expressions."""
 import random
 
+import engine
 import gen
 import pegcheck
+import render
+import tlc
+from common import MachineryFailure
+
+
+def flags_worker(case):
+    """[always_succeeds(), can_partially_succeed()] of the real expression object of each description."""
+    out = []
+    try:
+        from sourcer import grammar as sg, parser as sp, translator as st
+    except Exception:   # noqa
+        return {'id': case['id'], 'desc': None, 'build': ['ok'], 'obs': [None] * len(case['exprs'])}
+    for text in case['exprs']:
+        try:
+            parsed = sg._parse_grammar('start = %s\nR1 = ["a", "b"]\nR2 = ("a")*\n' % text)
+            nodes = sp.transform(parsed.body, st._create_parsing_expression)
+            ex = nodes[0].expr
+            out.append([bool(ex.always_succeeds()), bool(ex.can_partially_succeed())])
+        except BaseException:  # noqa
+            out.append(None)
+    return {'id': case['id'], 'desc': None, 'build': ['ok'], 'obs': out}
+
+
+engine.register('flags_worker', flags_worker)
 
 
 def run(chk):
@@ -16,6 +41,24 @@ def run(chk):
         'regex leaves are restricted to the Rx.tla subset; CPython re agrees with Rx on it',
         'error positions are only required to lie within [pos, farthest position examined]',
     ]
+    # (B) the mechanism layer (register protocol with the static flags as they are written today) refines the
+    # meaning layer on the family: a statement about the design; its failure would be an inconsistency of the
+    # specification, not a verdict about the code
+    flags = []
+    r = tlc.run('MC_PegVM', 'MC_PegVM_' + chk.tier, on_json=flags.append, timeout_s=3000)
+    chk.add_tlc(r, 'MC_PegVM')
+    if not r.ok:
+        raise MachineryFailure('MC_PegVM did not complete')
+    fcases = [{'id': i, 'exprs': [render.expr(x['e']) for x in flags[i:i + 200]]} for i in range(0, len(flags), 200)]
+    frecs = engine.run_real(fcases, fn='flags_worker', batch=1)
+    dis = []
+    for fc in fcases:
+        for x, got in zip(flags[fc['id']:fc['id'] + 200], frecs[fc['id']]['obs']):
+            if got is not None and got != [x['as'], x['cps']]:
+                dis.append({'expr': render.expr(x['e']), 'spec': [x['as'], x['cps']], 'code': got})
+    chk.notes['flag_comparison'] = {'expressions': len(flags), 'disagreements': len(dis), 'examples': dis[:5],
+                                    'meaning': 'PegVM!AS/CPS vs always_succeeds()/can_partially_succeed() of the real '
+                                               'expression objects; informational'}
     # (A) TLC-enumerated family, text mode
     cases = pegcheck.collect(chk, 'MC_C01', 'MC_C01_' + chk.tier, timeout_s=3000)
     chk.notes['tlc_enumerated_grammars'] = len(cases)
